@@ -155,6 +155,9 @@ def add_sock_case(em, p, events, cfg, k, desc, chunked=False):
 
 
 # ------------------------------------------------------------------------------------------------- stream generators
+built_ok = set()   # payloads laid out by the reference encoder for a defined type: they must parse
+
+
 def valid_payloads(tabs, rng, n):
     out = []
     idents = list(tabs.ALL)
@@ -164,8 +167,9 @@ def valid_payloads(tabs, rng, n):
             b = gen.build(tabs, rng.choice(idents), rng, maxcount=2)
             if b is not None and 2 <= len(b.payload) <= 1023:
                 out.append(b.payload)
+                built_ok.add(b.payload)
         elif c < 0.8:  # unknown numbers, assorted lengths
-            mid = rng.choice([0, 1, 999, 1069, 1070, 1231, 2000, 4095, 4072])
+            mid = rng.choice([0, 1, 12, 108, 999, 1069, 1070, 1078, 1090, 1130, 1138, 1229, 1231, 2000, 4095, 4072])
             ln = rng.choice([2, 3, 4, 10, 255, 256, 511, 512])
             out.append(bytes([mid >> 4, (mid & 15) << 4]) + bytes(rng.getrandbits(8) for _ in range(ln - 2)))
         else:
@@ -223,6 +227,8 @@ def mixed_stream(tabs, rng, nitems, kinds, p_nmea_hdr):
             items.append(("ubx", gen.ubx_frame(rng, n=rng.choice([256, 300, 700])), None))
         elif k == "noise":
             items.append(("noise", gen.noise(rng, rng.randrange(1, 12), inert=True), None))
+        elif k == "zeros":
+            items.append(("noise", bytes(rng.randrange(1, 6)), None))
         elif k == "syncnoise":
             items.append(("syncnoise", gen.noise(rng, rng.randrange(1, 10), inert=False), None))
         elif k == "falsesync":
@@ -240,7 +246,8 @@ def mixed_stream(tabs, rng, nitems, kinds, p_nmea_hdr):
 
 
 WELLFORMED = ["frame", "frame", "frame", "zero", "nmea", "nmea_lf", "ubx", "ubx_big", "noise"]
-HOSTILE = WELLFORMED + ["damaged", "syncnoise", "falsesync", "reserved", "nmea_unlisted"]
+WELLFORMED = WELLFORMED + ["zeros"]
+HOSTILE = WELLFORMED + ["damaged", "syncnoise", "falsesync", "reserved", "nmea_unlisted", "zeros"]
 
 
 def find_frames(data):
@@ -358,9 +365,26 @@ def main():
         em.samples = [{"stream_items": "hostile mix: frames, damaged, reserved-bit headers, NMEA, UBX, sync-dense noise, truncated tail", "faults": "none / single at every call / random"}]
 
     elif prop == "C02":
-        for it in range(80 if thorough else 24):
+        # every message number that is named in the id table but has no payload definition (reserved, proprietary, not yet
+        # implemented), each in a small valid frame, interleaved with foreign traffic: all must come back
+        named_undefined = sorted(int(k) for k in tabs.MSGIDS if k.isdigit() and k not in tabs.ALL and int(k) < 4096)
+        special = []
+        for chunk in [named_undefined[i:i + 40] for i in range(0, len(named_undefined), 40)]:
+            its = []
+            for mid in chunk:
+                pl = bytes([mid >> 4, (mid & 15) << 4]) + bytes(rng.getrandbits(8) for _ in range(rng.choice([0, 1, 5, 30])))
+                if mid == 4076 and len(pl) < 3:
+                    pl += b"\x02"
+                its.append(("frame", gen.frame(pl), pl))
+                if rng.random() < 0.3:
+                    its.append(("nmea", gen.nmea_sentence(rng), None))
+            special.append((b"".join(x[1] for x in its), its))
+        for it in range((80 if thorough else 24) + len(special)):
             n = rng.randrange(2, 41 if thorough else 16)
-            data, items = mixed_stream(tabs, rng, n, WELLFORMED, None)
+            if it < len(special):
+                data, items = special[it]
+            else:
+                data, items = mixed_stream(tabs, rng, n, WELLFORMED, None)
             if len(data) > 9000:
                 data, items = mixed_stream(tabs, rng, 6, WELLFORMED, None)
             for q in (0, 1):
@@ -374,7 +398,11 @@ def main():
                     got = [raw for raw, _ in p.RTCMReader(stream, quitonerror=0)]
                 except Exception as e:  # noqa
                     got = repr(e)
-                want = [x[1] for x in items if x[0] == "frame" and constructs(x[2])]
+                def must_parse(pl):
+                    mid = pl[0] << 4 | pl[1] >> 4
+                    ident = "%d_%03d" % (mid, (pl[1] & 1) << 7 | pl[2] >> 1) if mid == 4076 and len(pl) > 2 else str(mid)
+                    return ident not in tabs.ALL or pl in built_ok
+                want = [x[1] for x in items if x[0] == "frame" and must_parse(x[2])]
                 if got != want:
                     em.violation("C02: frames returned differ from the valid frames of the stream (%s)" % mk,
                                  {"stream": data.hex(), "items": [x[0] for x in items]},
